@@ -2,4 +2,4 @@ From Coq Require Import Extraction ExtrOcamlBasic ZArith List.
 From LP Require Import Num C12_Model.
 Extraction Language OCaml.
 Extraction "C12_m.ml" gl_roots gl_assemble gl_rule gl_integrate_values gl_integrate_fun gl_integrate
-  gl_rule_default gl_integrate_default mapM gl_integrate_funM gl_levelM gl_nest Z.of_nat Z.to_nat.
+  gl_rule_default gl_integrate_default mapM gl_integrate_funM gl_levelM gl_nest mapX gl_integrate_funX gl_levelX gl_nestX Z.of_nat Z.to_nat.
